@@ -618,10 +618,14 @@ func opSelect() *core.Op {
 // c05.rounds
 
 type EventIn struct {
-	// reconcile | advance | notReady | ready | queue | terminate | remove | rollback
+	// reconcile | advance | notReady | ready | queue | sync | terminate | remove | rollback
 	Kind string `json:"kind"`
 	Name string `json:"name,omitempty"`
 	Sec  int64  `json:"sec,omitempty"`
+	// Lag (queue events): the orchestration queue executes its commands (the candidates' NodeClaims get their
+	// deletionTimestamp in the API) but the NodeClaim informer has NOT yet delivered that update to the in-memory
+	// cluster state when the next events happen; a later "sync" event (or any event that touches the node) delivers it.
+	Lag bool `json:"lag,omitempty"`
 }
 
 type RoundsIn struct {
@@ -638,7 +642,31 @@ type SnapNode struct {
 	Initialized bool   `json:"initialized"`
 	Ready       bool   `json:"ready"`
 	Terminating bool   `json:"terminating"`
-	Marked      bool   `json:"marked"`
+	// Marked: "being deleted" as an outside observer sees it (see snapshot): initially marked, held by a command in
+	// the orchestration queue, or the NodeClaim has a deletionTimestamp IN THE API
+	Marked bool `json:"marked"`
+	// the parts of Marked, and the cluster state's own view (StateNode.MarkedForDeletion(), the thing under test)
+	InFlight      bool `json:"inFlight"`
+	APIDeleting   bool `json:"apiDeleting"`
+	StateDeleting bool `json:"stateDeleting"`
+	StateMarked   bool `json:"stateMarked"`
+}
+
+// CmdDone: a command the orchestration queue finished, and how (Succeeded: its candidates' NodeClaims were deleted).
+type CmdDone struct {
+	Names     []string `json:"names"`
+	Succeeded bool     `json:"succeeded"`
+}
+
+// EventLog: what one input event did to the queue / the informer, in the order of the input events.
+type EventLog struct {
+	Kind string `json:"kind"`
+	// Round: index into `rounds` for a reconcile event, -1 otherwise
+	Round int `json:"round"`
+	// Cmds: the commands Queue.Reconcile / CompleteCommand finished during this event
+	Cmds []CmdDone `json:"cmds"`
+	// Synced: the nodes whose API objects the "informer" delivered to the cluster state during this event
+	Synced []string `json:"synced"`
 }
 
 type CmdOut struct {
@@ -655,6 +683,7 @@ type RoundOut struct {
 
 type RoundsOut struct {
 	Rounds []RoundOut  `json:"rounds"`
+	Log    []EventLog  `json:"log"`
 	Cron   []CronEntry `json:"cron"`
 }
 
@@ -674,13 +703,16 @@ func (w *World) snapshot() []SnapNode {
 		if n.Node != nil {
 			s.Name = n.Node.Name
 		}
-		s.Marked = w.InitMarked[s.Name] || inFlight[s.Name]
+		s.InFlight = inFlight[s.Name]
+		s.StateMarked = n.MarkedForDeletion()
 		if n.NodeClaim != nil {
+			s.StateDeleting = !n.NodeClaim.DeletionTimestamp.IsZero()
 			nc := &v1.NodeClaim{}
 			if err := w.Client.Get(w.Ctx, types.NamespacedName{Name: n.NodeClaim.Name}, nc); err == nil && !nc.DeletionTimestamp.IsZero() {
-				s.Marked = true
+				s.APIDeleting = true
 			}
 		}
+		s.Marked = w.InitMarked[s.Name] || s.InFlight || s.APIDeleting
 		if n.Node != nil {
 			s.Name = n.Node.Name
 			s.Ready = nodeutils.GetCondition(n.Node, corev1.NodeReady).Status == corev1.ConditionTrue
@@ -767,6 +799,33 @@ func genRounds(r *rand.Rand, t core.Tier) any {
 		nodes = genNodes(r, pools, o)
 	}
 	now := genInstant(r, allBudgets(pools))
+	if r.Float64() < 0.25 {
+		// pipelines: the controller requeues immediately after a successful round, the queue executes the command,
+		// and the next round starts before (80%) or after the informer has told the cluster state about the
+		// NodeClaims' deletionTimestamp
+		cycles := 2 + r.IntN(3)
+		if t == core.Thorough {
+			cycles = 2 + r.IntN(6)
+		}
+		evs := []EventIn{}
+		for i := 0; i < cycles; i++ {
+			evs = append(evs, EventIn{Kind: "reconcile"}, EventIn{Kind: "queue", Lag: r.Float64() < 0.8})
+			switch x := r.Float64(); {
+			case x < 0.15:
+				evs = append(evs, EventIn{Kind: "notReady", Name: pick(r, nodes).Name})
+			case x < 0.25:
+				evs = append(evs, EventIn{Kind: "advance", Sec: pick(r, []int64{1, 15, 60, 600})})
+			case x < 0.32:
+				evs = append(evs, EventIn{Kind: "rollback"})
+			}
+			evs = append(evs, EventIn{Kind: "reconcile"})
+			if r.Float64() < 0.4 {
+				evs = append(evs, EventIn{Kind: "sync"})
+			}
+		}
+		evs = append(evs, EventIn{Kind: "reconcile"})
+		return RoundsIn{Pools: pools, Nodes: nodes, NowNs: now.UnixNano(), Events: evs}
+	}
 	n := 4 + r.IntN(10)
 	if t == core.Thorough {
 		n = 6 + r.IntN(24)
@@ -775,19 +834,21 @@ func genRounds(r *rand.Rand, t core.Tier) any {
 	for i := 0; i < n; i++ {
 		x := r.Float64()
 		switch {
-		case x < 0.50:
+		case x < 0.47:
 			evs = append(evs, EventIn{Kind: "reconcile"})
-		case x < 0.60:
+		case x < 0.56:
 			evs = append(evs, EventIn{Kind: "advance", Sec: pick(r, []int64{1, 15, 59, 60, 600, 3600, 86400})})
-		case x < 0.70:
+		case x < 0.65:
 			evs = append(evs, EventIn{Kind: "notReady", Name: pick(r, nodes).Name})
-		case x < 0.75:
+		case x < 0.70:
 			evs = append(evs, EventIn{Kind: "ready", Name: pick(r, nodes).Name})
-		case x < 0.85:
-			evs = append(evs, EventIn{Kind: "queue"})
-		case x < 0.92:
+		case x < 0.83:
+			evs = append(evs, EventIn{Kind: "queue", Lag: r.Float64() < 0.5})
+		case x < 0.87:
+			evs = append(evs, EventIn{Kind: "sync"})
+		case x < 0.93:
 			evs = append(evs, EventIn{Kind: "terminate", Name: pick(r, nodes).Name})
-		case x < 0.96:
+		case x < 0.97:
 			evs = append(evs, EventIn{Kind: "remove", Name: pick(r, nodes).Name})
 		default:
 			evs = append(evs, EventIn{Kind: "rollback"})
@@ -817,10 +878,19 @@ func implRounds(raw json.RawMessage) (any, error) {
 		buildMethod(w, "single", "real", none, &called),
 	}
 	ctrl := disruption.NewController(w.Clk, w.Client, w.Prov, w.CP, w.Rec, w.Cluster, w.Queue, nil, disruption.WithMethods(methods...))
-	out := RoundsOut{Rounds: []RoundOut{}}
+	out := RoundsOut{Rounds: []RoundOut{}, Log: []EventLog{}}
 	seen := map[string]bool{}
 	var nows []time.Time
+	sortedCommands := func() []*disruption.Command {
+		cmds := w.Queue.GetCommands()
+		sort.Slice(cmds, func(i, j int) bool {
+			return strings.Join(candidateNames(*cmds[i]), ",") < strings.Join(candidateNames(*cmds[j]), ",")
+		})
+		return cmds
+	}
+	w.cutSynced()
 	for _, ev := range in.Events {
+		lg := EventLog{Kind: ev.Kind, Round: -1, Cmds: []CmdDone{}}
 		switch ev.Kind {
 		case "reconcile":
 			called = true // never apply "later" mutations in histories
@@ -829,17 +899,14 @@ func implRounds(raw json.RawMessage) (any, error) {
 			if _, err := ctrl.Reconcile(w.Ctx); err != nil {
 				ro.Err = "error"
 			}
-			cmds := w.Queue.GetCommands()
-			sort.Slice(cmds, func(i, j int) bool {
-				return strings.Join(candidateNames(*cmds[i]), ",") < strings.Join(candidateNames(*cmds[j]), ",")
-			})
-			for _, c := range cmds {
+			for _, c := range sortedCommands() {
 				if seen[c.ID.String()] {
 					continue
 				}
 				seen[c.ID.String()] = true
 				ro.Commands = append(ro.Commands, CmdOut{Reason: string(c.Reason()), Names: candidateNames(*c)})
 			}
+			lg.Round = len(out.Rounds)
 			out.Rounds = append(out.Rounds, ro)
 			if err := w.launchReplacements(); err != nil {
 				return nil, err
@@ -853,8 +920,9 @@ func implRounds(raw json.RawMessage) (any, error) {
 				}
 			}
 		case "queue":
-			// the orchestration queue: replacements are initialized, so candidates get deleted
-			for _, c := range w.Queue.GetCommands() {
+			// the orchestration queue: replacements are initialized, so candidates get deleted. With Lag the NodeClaim
+			// informer has not delivered the deletionTimestamps to the cluster state yet.
+			for _, c := range sortedCommands() {
 				if len(c.Candidates) == 0 {
 					continue
 				}
@@ -865,10 +933,26 @@ func implRounds(raw json.RawMessage) (any, error) {
 				if _, err := w.Queue.Reconcile(w.Ctx, nc); err != nil {
 					return nil, err
 				}
+				if w.Queue.HasAny(c.Candidates[0].ProviderID()) {
+					continue // still waiting (not completed)
+				}
+				lg.Cmds = append(lg.Cmds, CmdDone{Names: names, Succeeded: c.Succeeded})
+				if ev.Lag {
+					continue
+				}
 				for _, n := range names {
 					if err := w.Sync(n); err != nil {
 						return nil, err
 					}
+				}
+			}
+		case "sync":
+			// the informers catch up on every node
+			names := lo.Keys(w.PID)
+			sort.Strings(names)
+			for _, n := range names {
+				if err := w.Sync(n); err != nil {
+					return nil, err
 				}
 			}
 		case "terminate":
@@ -888,17 +972,17 @@ func implRounds(raw json.RawMessage) (any, error) {
 			}
 		case "rollback":
 			// a command fails (e.g. its replacement never initialises): the queue un-marks its candidates
-			cmds := w.Queue.GetCommands()
-			sort.Slice(cmds, func(i, j int) bool {
-				return strings.Join(candidateNames(*cmds[i]), ",") < strings.Join(candidateNames(*cmds[j]), ",")
-			})
-			if len(cmds) > 0 {
+			if cmds := sortedCommands(); len(cmds) > 0 {
 				cmds[0].Succeeded = false
+				names := candidateNames(*cmds[0])
 				w.Queue.CompleteCommand(cmds[0])
+				lg.Cmds = append(lg.Cmds, CmdDone{Names: names, Succeeded: false})
 			}
 		default:
 			return nil, fmt.Errorf("bad event %q", ev.Kind)
 		}
+		lg.Synced = w.cutSynced()
+		out.Log = append(out.Log, lg)
 	}
 	out.Cron = cronTable(allBudgets(in.Pools), nows...)
 	return out, nil
@@ -907,7 +991,7 @@ func implRounds(raw json.RawMessage) (any, error) {
 func opRounds() *core.Op {
 	return &core.Op{
 		Name: "c05.rounds",
-		Doc:  "histories through the real disruption.Controller.Reconcile (all five real methods, real validators, real orchestration Queue.StartCommand/Reconcile/CompleteCommand) with clock, readiness, termination and rollback events between rounds",
+		Doc:  "histories through the real disruption.Controller.Reconcile (all five real methods, real validators, real orchestration Queue.StartCommand/Reconcile/CompleteCommand) with clock, readiness, termination, rollback and informer-lag events between rounds (the queue deletes NodeClaims in the API; the cluster state learns of it at once, later, or after further rounds)",
 		N: func(t core.Tier) int {
 			if t == core.Thorough {
 				return 3000
@@ -916,7 +1000,7 @@ func opRounds() *core.Op {
 		},
 		Gen:  genRounds,
 		Impl: implRounds,
-		Rule: "3–12 nodes in 1–2 pools, 5–14 events (quick) / 7–30 (thorough); non-trivial = a command was accepted in a round that started with at least one node already not ready or marked for deletion",
+		Rule: "3–12 nodes in 1–2 pools, 5–14 events (quick) / 7–30 (thorough): 47% reconcile, 13% queue (half of them with informer lag), 4% informer sync, clock/readiness/terminate/remove/rollback; 25% of the histories are pipelines reconcile→queue(lag 80%)→reconcile(→sync 40%); non-trivial = a command was accepted in a round that started with at least one node already not ready or marked for deletion",
 		Nontrivial: func(_ json.RawMessage, impl any) bool {
 			m, ok := impl.(map[string]any)
 			if !ok {
@@ -957,6 +1041,45 @@ func opRounds() *core.Op {
 				}
 			}
 			l = append(l, fmt.Sprintf("rounds<=%d", ((len(rs)/5)+1)*5), fmt.Sprintf("acceptances=%d", lo.Min([]int{accepted, 6})))
+			var in RoundsIn
+			json.Unmarshal(raw, &in)
+			for _, e := range in.Events {
+				switch {
+				case e.Kind == "queue" && e.Lag:
+					l = append(l, "event:queue-informer-lag")
+				case e.Kind == "queue":
+					l = append(l, "event:queue-synced")
+				case e.Kind == "sync" || e.Kind == "rollback":
+					l = append(l, "event:"+e.Kind)
+				}
+			}
+			// rounds that ran on a cluster state that had not yet seen a deletionTimestamp present in the API
+			for _, r := range rs {
+				rm, _ := r.(map[string]any)
+				ns, _ := rm["nodes"].([]any)
+				stale := false
+				for _, n := range ns {
+					nm, _ := n.(map[string]any)
+					if nm["apiDeleting"] == true && nm["stateDeleting"] == false {
+						stale = true
+					}
+				}
+				if stale {
+					l = append(l, "round:state-lags-api-deletion")
+					if cs, _ := rm["commands"].([]any); len(cs) > 0 {
+						l = append(l, "round:state-lags-api-deletion+accepted")
+					}
+				}
+			}
+			lgs, _ := m["log"].([]any)
+			for _, e := range lgs {
+				em, _ := e.(map[string]any)
+				cs, _ := em["cmds"].([]any)
+				for _, c := range cs {
+					cm, _ := c.(map[string]any)
+					l = append(l, fmt.Sprintf("command-completed:succeeded=%v", cm["succeeded"]))
+				}
+			}
 			return l
 		},
 		Signature: func(raw json.RawMessage, _ any) string { return "rounds" },
@@ -968,6 +1091,14 @@ func opRounds() *core.Op {
 				c := in
 				c.Events = e
 				out = append(out, c)
+			}
+			for i, e := range in.Events {
+				if e.Kind == "queue" && e.Lag {
+					c := in
+					c.Events = append([]EventIn{}, in.Events...)
+					c.Events[i].Lag = false
+					out = append(out, c)
+				}
 			}
 			ps, ns := shrinkCluster(in.Pools, in.Nodes)
 			for _, n := range ns {
